@@ -138,6 +138,9 @@ def family_core():
                           channel("c2", sample("b", 1, normsys("k"), histosys("h", 1)))])
     add("binwise-middle", [channel("a", sample("s", 1, normfactor())), channel("b", sample("s", 3, normfactor()), sample("q", 3, shapesys("u", 3), staterror("e", 3))),
                            channel("c", sample("q", 2, histosys("h", 2)))])
+    # unequal numbers of Poisson- and Gaussian-constrained bin-wise parameters next to scalar constraints
+    add("binwise-unequal", [channel("B", sample("s", 2, normfactor(), normsys("k")), sample("q", 2, shapesys("u", 2), histosys("h", 2))),
+                            channel("A", sample("q", 1, staterror("e", 1), histosys("h", 1)))])
     # zero-uncertainty / zero-yield bins
     add("zero:shapesys-unc", [channel("ch", sample("sig", 2, normfactor()), sample("bkg", 2, shapesys("u", 2, zero=(1,))))])
     add("zero:staterror-unc", [channel("ch", sample("sig", 2, normfactor()), sample("bkg", 2, staterror("e", 2, zero=(0,))))])
